@@ -1,6 +1,8 @@
 import AslProofs.Matrix
 import AslProofs.Solve
 import Mathlib.LinearAlgebra.Matrix.Nondegenerate
+import Mathlib.LinearAlgebra.CrossProduct
+import Gen.Vec3Gen
 /-!
 # C20 — Matrix inverse, determinant, solve and rotation conversions are correct
 
@@ -131,6 +133,26 @@ theorem mulVec3_eq_mathlib (a : Nat → Nat → K) (p : V3 K) :
     toV3 (Gen.M3.mulVec3 (fld K) a p) = (toM3 a).mulVec (toV3 p) := by
   ext i
   fin_cases i <;> simp [toV3, toM3, Gen.M3.mulVec3, Matrix.mulVec, dotProduct, Fin.sum_univ_succ] <;> ring
+
+/-! ## Vec3 -/
+
+/-- `Vec3_::operator^` is the cross product and `operator*` the dot product -/
+theorem vec3_cross_dot_eq_mathlib (a b : V3 K) :
+    toV3 (Gen.V3.cross (fld K) a b) = crossProduct (toV3 a) (toV3 b) ∧
+    Gen.V3.dot (fld K) a b = dotProduct (toV3 a) (toV3 b) := by
+  constructor
+  · rw [cross_apply]
+    ext i
+    fin_cases i <;> simp [toV3, Gen.V3.cross]
+  · simp [toV3, Gen.V3.dot, dotProduct, Fin.sum_univ_succ]
+    ring
+
+/-- the cross product is orthogonal to both factors, and `|a×b|² = |a|²|b|² − (a·b)²` (Lagrange) -/
+theorem vec3_cross_orthogonal (a b : V3 K) :
+    Gen.V3.dot (fld K) (Gen.V3.cross (fld K) a b) a = 0 ∧ Gen.V3.dot (fld K) (Gen.V3.cross (fld K) a b) b = 0 ∧
+    Gen.V3.length2 (fld K) (Gen.V3.cross (fld K) a b) =
+      Gen.V3.length2 (fld K) a * Gen.V3.length2 (fld K) b - Gen.V3.dot (fld K) a b * Gen.V3.dot (fld K) a b := by
+  refine ⟨?_, ?_, ?_⟩ <;> simp [Gen.V3.dot, Gen.V3.cross, Gen.V3.length2] <;> ring
 
 /-! ## Quaternions against Mathlib's `ℍ[K]` -/
 
